@@ -1,3 +1,4 @@
+import TantivyModel.Proofs.SSTable.AddrStoreProofs
 import TantivyModel.Proofs.SSTable.Prefix
 import TantivyModel.Proofs.SSTable.MergeProofs
 import TantivyModel.Proofs.SSTable.Refine
@@ -390,6 +391,37 @@ theorem C15_prefix_stream {V} (m : Assoc V) (p : Key) :
   have := C15_prefix_range p e.1
   cases h1 : isPrefixOf p e.1 <;> cases h2 : matchLo (prefixBounds p).1 e.1 <;>
     cases h3 : matchHi (prefixBounds p).2 e.1 <;> simp_all
+
+/-! ## block-address store (`index/v3.rs`) -/
+
+/-- the linear-prediction codec of the block-address store is lossless: with the bit width
+`find_best_slope` chooses (`compute_num_bits(max deviation) + 1`, for ANY slope — the slope
+heuristic only affects size), every element's shifted deviation fits the width and reads back as
+the original start offset / first ordinal -/
+theorem C15_addr_codec_roundtrip (slope : Nat) (els : List (Nat × Nat)) :
+    ∀ e ∈ els,
+      packVal slope (slopeBits slope els) e.1 e.2 < 2 ^ slopeBits slope els ∧
+      unpackVal slope (slopeBits slope els) e.1 (packVal slope (slopeBits slope els) e.1 e.2) = e.2 := by
+  intro e he
+  exact pack_unpack slope (slopeBits slope els) e.1 e.2 (by unfold slopeBits; omega)
+    (slopeBits_fits slope els e he)
+
+/-- the two-level `binary_search` of `binary_search_ord` over non-decreasing first ordinals: an
+exact hit, or the insertion point (all earlier first ordinals below the target, all later ones
+above) — which is the abstract "last block whose first ordinal is ≤ ord" of `Dict.locateOrd`
+after the `- 1` of the code -/
+theorem C15_addr_binary_search (f : Nat → Nat) (t n : Nat)
+    (hmono : ∀ a b, a ≤ b → b < n → f a ≤ f b) :
+    match binSearch (fun g => compare (f g) t) (n + 1) 0 n with
+    | .inl m => m < n ∧ f m = t
+    | .inr p => p ≤ n ∧ (∀ g, g < p → f g < t) ∧ (∀ g, p ≤ g → g < n → t < f g) :=
+  binSearch_spec f t n hmono (n + 1) 0 n (Nat.le_refl _) (Nat.zero_le _) (by omega)
+    (fun g hg => absurd hg (Nat.not_lt_zero g)) (fun g hg hgn => absurd hgn (by omega))
+
+/- Not proved for the address store (tied by cross-decoding real index bytes on every run):
+   the bit-level layout (`BitPacker::write` / `extract_bits`), the 36-byte metadata record, and
+   `Store.locateOrd = Dict.locateOrd` as a whole; `locate_with_key` goes through the FST, which is
+   a parameter with the contract "first key ≥ k". -/
 
 /-! ## insertion order (DESIGN §8, F6) -/
 
